@@ -112,6 +112,12 @@ func (t *Timer) Scheduled() bool {
 }
 
 func (t *Timer) Cancel() error {
+	if t.state == stateClosed {
+		// A closed timer stays closed: it no longer owns its descriptor (the kernel may have given the number to
+		// another timer), so it must not become schedulable again.
+		return nil
+	}
+
 	err := t.it.Unset()
 	if err == nil {
 		t.cancelled = true
